@@ -14,7 +14,7 @@ Max2(a, b) == IF a >= b THEN a ELSE b
 
 EmptyPool ==
   /\ pmin = 0 /\ pmax = 0 /\ free = {} /\ holder = <<>> /\ transit = {} /\ dc = <<>> /\ rq = <<>>
-  /\ cur = <<>> /\ cleared = FALSE /\ inst = <<>> /\ vers = <<>> /\ done = 0 /\ pend = NoPend /\ model = 1
+  /\ cur = <<>> /\ cleared = FALSE /\ inst = <<>> /\ vers = <<>> /\ done = 0 /\ pend = NoPend /\ model = 1 /\ upq = <<>> /\ fin = <<>>
 TraceInit == EmptyPool /\ l = 1
 
 TSession  == IsEvent("session") /\ UNCHANGED pvars
@@ -30,10 +30,10 @@ TReturn   == IsEvent("req_end") /\ ReturnCore(Ev.q, Ev.err, Ev.vals, Ev.cv)
 TPush     == IsEvent("push") /\ (CheckLocks => Ev.locked = 1) /\ PushCore(Ev.i, Ev.len)
 TQuiesce  == IsEvent("quiesce") /\ QuiesceCore
 TFrozen   == IsEvent("frozen") /\ FrozenCore(Ev.q, Ev.same)
-TUpdBegin == IsEvent("upd_begin") /\ UpdBeginCore(Ev.kind, Ev.rules, Ev.names)
-TPublish  == IsEvent("publish") /\ PublishCore
-TIncrMid  == IsEvent("incr_mid") /\ IncrMidCore
-TUpdEnd   == IsEvent("upd_end") /\ ~Ev.panic /\ UpdEndCore(Ev.ok)
+TUpdBegin == IsEvent("upd_begin") /\ UpdCallCore(Ev.u, Ev.kind, Ev.rules, Ev.names)
+TPublish  == IsEvent("publish") /\ PublishCoreU(Ev.u)
+TIncrMid  == IsEvent("incr_mid") /\ IncrMidCoreU(Ev.u)
+TUpdEnd   == IsEvent("upd_end") /\ ~Ev.panic /\ UpdEndCoreU(Ev.u, Ev.ok)
 TSetModel == IsEvent("setmodel") /\ SetModelCore(Ev.m, Ev.ok)
 TQuery    == IsEvent("query") /\ QueryCore(Ev.kind, Ev.arg, Ev.res, Ev.err)
 
@@ -52,7 +52,7 @@ TraceSkip ==
   /\ TLCSet(2, Append(TLCGet(2), l))
   /\ l' = NextSession(l)
   /\ pmin' = 0 /\ pmax' = 0 /\ free' = {} /\ holder' = <<>> /\ transit' = {} /\ dc' = <<>> /\ rq' = <<>>
-  /\ cur' = <<>> /\ cleared' = FALSE /\ inst' = <<>> /\ vers' = <<>> /\ done' = 0 /\ pend' = NoPend /\ model' = 1
+  /\ cur' = <<>> /\ cleared' = FALSE /\ inst' = <<>> /\ vers' = <<>> /\ done' = 0 /\ pend' = NoPend /\ model' = 1 /\ upq' = <<>> /\ fin' = <<>>
 TraceNext == TraceProper \/ TraceSkip
 TraceSpec == TraceInit /\ [][TraceNext]_<<pvars, l>>
 Mark == TLCSet(1, Max2(TLCGet(1), l))
